@@ -21,6 +21,7 @@ def run_port(chk: Check, port: str, cases: list[dict], req: Callable[[dict], str
             got = "EXC " + type(e).__name__
         a = a.strip()
         if a != got.strip():
+            c["_diff"] = True
             d = dict(c)
             d["model"] = a
             d["impl"] = got
